@@ -233,6 +233,22 @@ register('C07',
          'DESIGN.md 5/C07')
 
 
+register('C06',
+         'Exact criteria in the specification: sizes (bits < 2048) and exponents (e != 65537) on projected integers; ROCA and its '
+         'variant re-derived inside TLC from the two prime lists (Roca.tla: subgroup generated by 65537 modulo each of the 39 primes, '
+         'non-zero squares modulo each of the 48) and applied to the residue vector of each modulus; denylist membership; covered '
+         'Keypair seeds must be flagged and factored; EC validity as the four clauses of IsValidPublicKey and the 224-bit order '
+         'rule. T1: IsValidPublicKey is replayed on coordinate squares [0, 2p)^2 of small curves incl. cofactor 2 and 4 and TLC '
+         'recomputes Valid from the definitional law. Boundary replays: 2^2047-1 / 2^2047 / 2^2048-1, leading-zero encodings of n '
+         'and e, ROCA-structured moduli, moduli missing the ROCA / variant condition at exactly one prime (incl. residue 0), CRT-'
+         'built variant moduli, custom Storage denylists (same hash under another key type), covered / uncovered Keypair seeds, '
+         'every named curve with off-curve / 0 / p / x+p / 2^521 coordinates, unknown and binary-field identifiers.',
+         'Trusted: TLC, residues and bit lengths computed by the harness, hashlib fingerprint, reference on-curve test, the repository\'s '
+         'keypair_generator as the definition of the vulnerable generator. Moduli divisible by one of the 48 primes are "may" for the variant.',
+         'TLA+ exact criteria (FactorCriteria.tla, Roca.tla, EcGroup.tla Valid) evaluated by TLC on boundary replays + small-curve exhaustive validity',
+         'DESIGN.md 5/C06')
+
+
 def main():
   props = [json.loads(l)['id'] for l in open(os.path.join(HOME, 'properties.jsonl'))]
   checks = []
